@@ -37,6 +37,8 @@ type Input struct {
 	Hist []HOp `json:"hist,omitempty"`
 	// Assoc: run the association paths on this case whatever its position (corpus inputs)
 	Assoc bool `json:"assoc,omitempty"`
+	// SkipHooks: the writes go through a Session{SkipHooks: true} handle (nothing else changes)
+	SkipHooks bool `json:"skip_hooks,omitempty"`
 }
 
 type Obs struct {
@@ -372,7 +374,7 @@ func (e *env) run(in Input) Obs {
 	writes := func(twins bool, upd, updTwins, del, delTwins, delAgain *[]int64) {
 		fail("reset", e.reset(in, twins))
 		before := e.dump()
-		fail("update", build(db).Session(&gorm.Session{AllowGlobalUpdate: true}).Model(whr.NewSoftOne(in.Variant)).Update("mark", 1).Error)
+		fail("update", build(db).Session(&gorm.Session{AllowGlobalUpdate: true, SkipHooks: in.SkipHooks}).Model(whr.NewSoftOne(in.Variant)).Update("mark", 1).Error)
 		after := e.dump()
 		*upd = changed(before, after, isLive)
 		if updTwins != nil {
@@ -380,15 +382,21 @@ func (e *env) run(in Input) Obs {
 		}
 		fail("reset", e.reset(in, twins))
 		before = e.dump()
-		fail("delete", build(db).Session(&gorm.Session{AllowGlobalUpdate: true}).Delete(whr.NewSoftOne(in.Variant)).Error)
+		fail("delete", build(db).Session(&gorm.Session{AllowGlobalUpdate: true, SkipHooks: in.SkipHooks}).Delete(whr.NewSoftOne(in.Variant)).Error)
 		after = e.dump()
+		if len(after) != len(before) {
+			o.Errs = append(o.Errs, fmt.Sprintf("Delete without Unscoped removed %d rows physically", len(before)-len(after)))
+		}
 		*del = changed(before, after, isLive)
 		if delTwins != nil {
 			*delTwins = changed(before, after, isTwin)
 		}
 		if delAgain != nil {
-			fail("delete2", build(db).Session(&gorm.Session{AllowGlobalUpdate: true, NowFunc: func() time.Time { return t2.Add(time.Hour) }}).Delete(whr.NewSoftOne(in.Variant)).Error)
+			fail("delete2", build(db).Session(&gorm.Session{AllowGlobalUpdate: true, SkipHooks: in.SkipHooks, NowFunc: func() time.Time { return t2.Add(time.Hour) }}).Delete(whr.NewSoftOne(in.Variant)).Error)
 			after2 := e.dump()
+			if len(after2) != len(after) {
+				o.Errs = append(o.Errs, fmt.Sprintf("a repeated Delete removed %d rows physically", len(after)-len(after2)))
+			}
 			*delAgain = changed(after, after2, func(int64) bool { return true })
 		}
 	}
@@ -948,13 +956,14 @@ func main() {
 			add("pattern", Input{Rows: genRows(r), Atoms: in0.Atoms, Chain: ch})
 			if i < 6 {
 				// the first patterns (no condition, one condition) also on every other declaration
-				for _, v := range []string{"ptr", "embedded", "named", "zerovalue"} {
+				for _, v := range []string{"ptr", "embedded", "named", "zerovalue", "writeonly", "createonly", "readonly"} {
 					add("pattern", Input{Rows: genRows(r), Atoms: in0.Atoms, Chain: ch, Variant: v})
 				}
 			}
 		}
-		for _, v := range []string{"", "ptr", "embedded", "named", "zerovalue"} {
+		for _, v := range []string{"", "ptr", "embedded", "named", "zerovalue", "writeonly", "createonly", "readonly"} {
 			add("pattern", Input{Rows: genRows(r), Atoms: in0.Atoms, Variant: v})
+			add("pattern", Input{Rows: genRows(r), Atoms: in0.Atoms, Variant: v, SkipHooks: true})
 		}
 	}
 	budget := 300
@@ -967,8 +976,9 @@ func main() {
 	for i := 0; i < budget; i++ {
 		in := Input{Rows: genRows(r), Atoms: whr.GenAtoms(r, names, nicks)}
 		if r.Chance(1, 3) {
-			in.Variant = lib.Pick(r, []string{"ptr", "embedded", "named", "zerovalue"})
+			in.Variant = lib.Pick(r, []string{"ptr", "embedded", "named", "zerovalue", "writeonly", "createonly", "readonly"})
 		}
+		in.SkipHooks = r.Chance(1, 4)
 		g := whr.NewGen(r, in.Atoms)
 		hostile := r.Chance(1, 2)
 		n := r.Range(0, 4)
